@@ -357,4 +357,36 @@ def flatteningToJ2 (a GM omega f : α) : α :=
   let e2 := f * (2 - f)
   (e2 - K * f1 * f2 / Qz (RealLike.sqrt (e2 / f2))) / 3
 
+/-! ### prolate (`f < 0`, `E = a·√(−e²)`, `u` = polar semi-axis of the confocal spheroid, `√(u² − E²)` its equatorial one) and spherical (`f = 0`) closed forms -/
+
+/-- `NormalGravity::Qf(x, true)` in closed form at `y = −w²`, `w = E/u ∈ (0, 1)`: `Q = ((1 + 3/y)·A − 3/y)/(2y)`, `A = atanzz = atanh(w)/w` -/
+def QzAlt (w : α) : α :=
+  let y := -(sq w)
+  ((1 + 3 / y) * (RealLike.atanh w / w) - 3 / y) / (2 * y)
+
+/-- normal potential for a prolate reference ellipsoid at `(u, β)`: `V₀ = GM·atanzz/u + ω²a²·q·(sin²β − 1/3)/2`, `q = Q(u)/Q(b)·(b/u)³`,
+    plus the rotational potential `ω²·p²/2`, `p² = (u² − E²)·cos²β`; `a² = b² − E²` -/
+def normalUProlate (GM omega a b E u sbet cbet : α) : α :=
+  GM / E * RealLike.atanh (E / u) + sq omega * sq a / 2 * (QzAlt (E / u) / QzAlt (E / b) * ((b / u) * sq (b / u))) * (sq sbet - 1 / 3)
+    + sq omega / 2 * (sq u - sq E) * sq cbet
+
+/-- normal potential for a spherical reference body (`f = 0`, `E = 0`): `q = (a/u)³` -/
+def normalUSphere (GM omega a u sbet cbet : α) : α :=
+  GM / u + sq omega * sq a / 2 * ((a / u) * sq (a / u)) * (sq sbet - 1 / 3) + sq omega / 2 * sq u * sq cbet
+
+/-! ### `NormalGravity::J2ToFlattening`: the Newton iteration on `e²` (oblate branch `e² > 0`) -/
+
+/-- the function whose zero is sought: `h(e²) = e² − f₁·f₂·K/Q₀ − 3·J₂`, `f₂ = 1 − e²`, `f₁ = √f₂`, `Q₀ = Qf(e′²)`, `e′² = e²/(1 − e²)`, `K = 2a³ω²/(15·GM)` -/
+def j2Residual (a GM omega J2 e2 : α) : α :=
+  let K := 2 * sq (a * omega) * a / (15 * GM)
+  let f2 := 1 - e2
+  let f1 := RealLike.sqrt f2
+  e2 - f1 * f2 * K / Qz (RealLike.sqrt (e2 / f2)) - 3 * J2
+
+/-- one Newton step `e² ← e² − h/dh` (before the clamp `fmin(·, maxe_)`) -/
+def j2NewtonStep (e2 h dh : α) : α := e2 - h / dh
+
+/-- the value returned: `f = e²/(1 + √(1 − e²))` -/
+def j2Flattening (e2 : α) : α := e2 / (1 + RealLike.sqrt (1 - e2))
+
 end GeoVerif.Harmonic
